@@ -138,9 +138,94 @@ PROPS = {
                         "PARTIAL: the real file system is a finite map path -> bytes; os.ReadDir / filepath.Glob results are inputs; permissions, "
                         "symlinks and concurrent modification are outside the model"],
     },
+    "C02": {
+        "run": "Run.Run_Walk",
+        "rule": 'struct types synthesised at run time with reflect.StructOf (1..4 fields per struct, nesting depth 0..2 favouring wide structs): scalar fields are specimens of a hand-written truth table (value, rule, violated?) carrying 0..4 rules each with a unique marker, repeated rules, empty items between commas, trailing commas, unknown rule names, required; nested structs / pointers (1..3 levels, nil) / slices / arrays / maps of structs marked required / exist or left as decoys; the clauses a call must produce (paths, markers, ORDER, nil iff none, groups last) are computed while the input is built and compared with the implementation and with the model inside Coq; inputs with a multi-entry Go map are compared as sets. distinct cell = (top-level form, number of expected clauses class, depth, set of generator features hit).',
+        "trusted": ["translator: rule table validName2FnMap, rule-name constants, label/separator constants, regexes", "correspondence: Go drivers (walkcommon.go value printer and error-text projection, wgen.go generator with by-construction expectations), Run/Run_Walk.v, bin/check", ORACLES + "strconv.FormatFloat renderings; fmt %v echoes of composite values are not compared"],
+        "assumptions": ['rule semantics enter only through the truth table here (C01/C05 decide them)', 'echoed values that fmt prints with %v are not compared'],
+    },
+    "C03": {
+        "run": "Run.Run_Walk",
+        "rule": "every supported field type (string, int..int64, uint..uint64, float32/64, bool, nil/non-empty slices, empty non-nil slices and maps, arrays, maps, structs, pointers to structs, pointers to scalars, pointer to pointer, interface) x zero / non-zero value x required at every position among 0..3 other rules that the non-zero value violates x entry points (struct field, Var, map entry, URL parameter): expected = required clause iff zero/empty, the other rules' clauses iff non-zero. distinct cell = (entry, type, zero?, with required?, number of other rules).",
+        "trusted": ["translator: rule table validName2FnMap, rule-name constants, label/separator constants, regexes", "correspondence: Go drivers (walkcommon.go value printer and error-text projection, wgen.go generator with by-construction expectations), Run/Run_Walk.v, bin/check", ORACLES + "strconv.FormatFloat renderings; fmt %v echoes of composite values are not compared"],
+        "assumptions": ['known finding C03-missing-entry: a missing map key / URL parameter never violates required'],
+    },
+    "C04": {
+        "run": "Run.Run_Walk",
+        "rule": 'as C02 with depth up to 5: object graphs nested through values, pointers (1..3 levels), slices, arrays and maps (string and int keys) with nil / zero / populated nodes at every position, nil elements, decoys (violating sub-objects under untagged fields, under a non-builtin rule, time.Time fields) that must stay silent; top-level struct, pointer, pointer to pointer; expected (path, marker) lists by construction. distinct cell as C02.',
+        "trusted": ["translator: rule table validName2FnMap, rule-name constants, label/separator constants, regexes", "correspondence: Go drivers (walkcommon.go value printer and error-text projection, wgen.go generator with by-construction expectations), Run/Run_Walk.v, bin/check", ORACLES + "strconv.FormatFloat renderings; fmt %v echoes of composite values are not compared"],
+        "assumptions": ['cyclic graphs are excluded by the property'],
+    },
+    "C13": {
+        "run": "Run.Run_Walk",
+        "rule": 'hostile inputs: a catalogue of 35 nil / wrong-kind shapes (nil, typed nil pointers, pointer to nil pointer, nil elements in slices / maps / arrays, non-string-keyed maps, non-maps for Map, scalars for Struct, funcs, chans, interface slices, bad URL escapes) x the four entry points x rule text from a grammar-aware mutator (60 seeds: missing / malformed arguments, unbalanced quotes and brackets, too many separators, bad regexes, NUL) with single and double character edits and raw random bytes, also as programmatic rule sets and with a nil function registered under a built-in name; observation = panicked or returned; the model must agree and never panic. distinct cell = (entry, shape, leading rule name or garbage, error?).',
+        "trusted": ["translator: rule table validName2FnMap, rule-name constants, label/separator constants, regexes", "correspondence: Go drivers (walkcommon.go value printer and error-text projection, wgen.go generator with by-construction expectations), Run/Run_Walk.v, bin/check", ORACLES + "strconv.FormatFloat renderings; fmt %v echoes of composite values are not compared"],
+        "assumptions": ['PARTIAL: Go slicing / indexing is written with total list functions in the model at sites checked by reading; the hostile stream is what ties them', 'user callbacks that panic and re-use of consumed validators are excluded by the property'],
+    },
+    "C16": {
+        "run": "Run.Run_Walk",
+        "rule": "the fixed object graph WTop{Mid WMid{A WLeaf, P *WLeaf, Ls []WLeaf, D WLeaf (unmarked), S}, PMid *WMid, S} (three struct types sharing the field name S, tag rules T1..T8) x per-type rule sets for each of the three types (absent / empty / partial: S, N, an unexported field, struct fields re-marked required / exist / a non-builtin rule / unknown, a non-existent field) x unscoped set (absent / empty / S / Mid) x this call's functions (lfn; shadowing the global ge; shadowing the built-in to) x global functions gfn and ge (registered in a child process before the calls) x input form (value, pointer, top-level slice = no outermost struct, WMid as outermost); expected clauses computed from the property's text (effective rule, resolution order) by a small evaluator over the fixed graph. distinct cell = set of configuration features.",
+        "trusted": ["translator: rule table validName2FnMap, rule-name constants, label/separator constants, regexes", "correspondence: Go drivers (walkcommon.go value printer and error-text projection, wgen.go generator with by-construction expectations), Run/Run_Walk.v, bin/check", ORACLES + "strconv.FormatFloat renderings; fmt %v echoes of composite values are not compared"],
+        "assumptions": ['where the property text is silent the observed behaviour is adopted: a non-empty typed set for the outermost type suppresses the unscoped set; elements of a top-level slice are not the outermost struct'],
+    },
+    "C17": {
+        "run": "Run.Run_Walk",
+        "rule": 'objects WG{X,Y either=1; A,B botheq=2} with every value pattern (all empty, one set, all equal, one differing) repeated in a slice, a map, nested by value and by pointer inside WGS (which has its own either group), top-level slices of WG, single-member groups (rule-writing error), map[string]string / map[string]int / []map inputs, URL inputs with the parameters in every order; expected group clauses (kind, member list) per object by construction; group clauses are compared as a set (Go map order), member lists of map input as sets. distinct cell = (entry, shape, number of violated groups).',
+        "trusted": ["translator: rule table validName2FnMap, rule-name constants, label/separator constants, regexes", "correspondence: Go drivers (walkcommon.go value printer and error-text projection, wgen.go generator with by-construction expectations), Run/Run_Walk.v, bin/check", ORACLES + "strconv.FormatFloat renderings; fmt %v echoes of composite values are not compared"],
+        "assumptions": ['members of one botheq group have one type (property)', 'object paths contain no NUL byte'],
+    },
+    "C18": {
+        "run": "Run.Run_Walk",
+        "rule": 'every scalar specimen x 1..4 rules of its truth table, presented as Var, struct field, map[string]T entry, []map[string]T element, and (strings) URL parameter raw or percent-encoded among 0..2 other parameters in any order: each presentation must produce exactly the by-construction marker list under its own path, and the same marker set as the Var presentation (SSame). distinct cell = (presentation, specimen, number of violated rules).',
+        "trusted": ["translator: rule table validName2FnMap, rule-name constants, label/separator constants, regexes", "correspondence: Go drivers (walkcommon.go value printer and error-text projection, wgen.go generator with by-construction expectations), Run/Run_Walk.v, bin/check", ORACLES + "strconv.FormatFloat renderings; fmt %v echoes of composite values are not compared"],
+        "assumptions": ['known findings: C18-iface-map-values (interface{} entry values), C18-url-reserved (reserved characters in URL values)'],
+    },
 }
 
 LEVELS = {
+    "C02": {
+        "text": 'Theorems in Coq about the executable model of the four validators: the error buffer is append-only and every object graph is walked to the end (no early exit, declaration then rule order), one rule instance writes at most one clause naming its field (contract proved for all 30 rule functions of the table), groups yield at most one clause each and come last, the result is nil exactly when nothing was written. Tied to the code by synthesised struct programs whose expected clause lists are known by construction.',
+        "design_ref": "DESIGN.md section 5, C02",
+        "note": "Trusted: Coq kernel, translator, correspondence harness (value printer, error-text projection). The walkers are modelled by hand; reflect is modelled at the calls used. 'Exactly one clause per VIOLATED instance' combines these structural theorems with the per-rule verdict theorems of C01/C05.",
+        "technique": 'Coq proof (induction on depth fuel with top-level helpers, append-only buffer invariant, rule contract) + generator with by-construction expectations evaluated in Coq against implementation and model',
+    },
+    "C03": {
+        "text": 'Theorems in Coq: required on a struct field writes its clause exactly when the value is zero or an empty slice/array/map, and otherwise descends without reporting (pointer to scalar included); required through Var likewise; every non-builtin rule (and registered function) is not evaluated on a zero value, in all four validators. Tied by every field type x zero/non-zero x rule combinations x entry points with by-construction expectations.',
+        "design_ref": "DESIGN.md section 5, C03",
+        "note": 'Known finding C03-missing-entry (map/URL: missing entries) is outside the theorems (they speak about present entries). IsZero is modelled kind by kind (tested on every generated value).',
+        "technique": 'Coq proof (induction on depth fuel with top-level helpers, append-only buffer invariant, rule contract) + generator with by-construction expectations evaluated in Coq against implementation and model',
+    },
+    "C04": {
+        "text": "Theorems in Coq: under required/exist a struct reached through any number of pointer levels is validated under Parent.Field, slice/array elements under Parent.Field[i], map entries under Parent.Field[key], to any depth (fuel > depth); zero/nil sub-objects under exist are skipped silently; fields without required/exist never use the recursive call (the result is independent of it), unexported and time.Time fields are skipped; every clause found inside an object carries a path extending the object's path. Tied by deep synthesised graphs with decoys and by-construction (path, marker) lists.",
+        "design_ref": "DESIGN.md section 5, C04",
+        "note": 'Trusted as C02. Reach is characterised by these per-construct equations and the path-prefix invariant rather than by a separate inductive relation.',
+        "technique": 'Coq proof (induction on depth fuel with top-level helpers, append-only buffer invariant, rule contract) + generator with by-construction expectations evaluated in Coq against implementation and model',
+    },
+    "C13": {
+        "text": 'Theorems in Coq: for every value without the invalid reflect.Value inside (nil, typed nil pointers, nil elements, pointers to pointers, scalars, any map, non-maps ...), every configuration (arbitrary rule bytes, rule sets, registered functions incl. nil) each of the four entry points returns Ok: never Panic, never out of fuel with fuel = depth+2. Tied by a hostile-input stream comparing panicked/returned.',
+        "design_ref": "DESIGN.md section 5, C13",
+        "note": "PARTIAL: the model's only explicit panic source is IsZero on the invalid Value; Go slice/index panics are modelled by total functions at sites repaired or checked by reading, so an unknown panic site is found by the correspondence stream (it found re=' and nil *string), not by the theorem.",
+        "technique": 'Coq proof (induction on depth fuel with top-level helpers, append-only buffer invariant, rule contract) + generator with by-construction expectations evaluated in Coq against implementation and model',
+    },
+    "C16": {
+        "text": "Theorems in Coq: the rule set in force for a struct is the typed set of its type wherever it occurs, else for the outermost struct the unscoped set (validate_body = on_fields with effective_rules); a supplied rule replaces the tag rule entirely, unmentioned fields keep theirs; name resolution is this call's function, then the global one, then the built-in; an unknown name writes one error clause and the remaining rules are evaluated. Tied by configurations over a fixed three-type graph with expectations computed from the property text.",
+        "design_ref": "DESIGN.md section 5, C16",
+        "note": 'Where the property text is silent the observed scoping is adopted and stated in the spec (DESIGN appendix B).',
+        "technique": 'Coq proof (induction on depth fuel with top-level helpers, append-only buffer invariant, rule contract) + generator with by-construction expectations evaluated in Coq against implementation and model',
+    },
+    "C17": {
+        "text": "Theorems in Coq: an either group of >= 2 members yields its clause exactly when all members are zero, a botheq group exactly when not all equal the first, a single member is a rule-writing error, the clause lists all members; groups are keyed by (object path, rule text) injectively, each group is judged on its own members, and members recorded under an object carry that object's path. Tied by objects repeated in slices/maps/nested, map, []map and URL inputs.",
+        "design_ref": "DESIGN.md section 5, C17",
+        "note": 'reflect.DeepEqual is modelled on the scalar kinds used in groups (strings, numbers, bools).',
+        "technique": 'Coq proof (induction on depth fuel with top-level helpers, append-only buffer invariant, rule contract) + generator with by-construction expectations evaluated in Coq against implementation and model',
+    },
+    "C18": {
+        "text": 'Theorems in Coq: for every rule text that resolves to a rule function and every non-zero value the struct, variable, map and (strings) URL validators call the same function, and every function of the rule table has a verdict independent of the object/field names; hence identical verdicts, only the path differs. Tied by presenting each specimen through every entry point and comparing marker sets.',
+        "design_ref": "DESIGN.md section 5, C18",
+        "note": "Known findings C18-iface-map-values and C18-url-reserved are outside the theorems' hypotheses (interface-kind values; percent-encoded reserved characters).",
+        "technique": 'Coq proof (induction on depth fuel with top-level helpers, append-only buffer invariant, rule contract) + generator with by-construction expectations evaluated in Coq against implementation and model',
+    },
+
     "C06": {
         "text": "Theorems in Coq about an executable model of newTagItems / override / format / injectTag / WriteFile and the area loop of ParseFile: the "
                 "merge loop meets the four clauses of the property and is the only list that does (C06_merge, C06_merge_unique); the tag scanner reads "
